@@ -27,7 +27,7 @@ struct pnode { size_t m_idx; double m_elevation; };
 size_t QS, PS;
 int G_PROCESSED;            /* G has been popped and its neighbours scanned */
 int G_IN_OPEN, G_IN_PIT;    /* G's element currently sits in the heap / the fifo ... */
-size_t G_SLOT;              /* ... at this slot */
+size_t G_SLOT_O, G_SLOT_P;  /* ... at this slot of the heap / of the fifo */
 size_t GBACK;               /* symmetry witness: the slot of node x in G's list when G occurs in x's list (see grid contract) */
 #define MASKED(x) (m_mask_initialized && m_mask[(x)])
 #define SAME_D(x, y) ((x) == (y) || (isnan(x) && isnan(y)))
@@ -76,8 +76,8 @@ def inv(nb):
         PARENT="((closed_[G] && !MASKED(G) && !base_level[G]) ==> %s)" % lower_nb,
         # flood completeness premises: a closed node is processed or still queued; a processed node has no open neighbour left
         TRACK="((closed_[G] && !MASKED(G)) ==> (G_PROCESSED || G_IN_OPEN || G_IN_PIT))",
-        TRACK_OPEN="(G_IN_OPEN ==> (G_SLOT < *open_n && open_buf[G_SLOT].m_idx == G))",
-        TRACK_PIT="(G_IN_PIT ==> (*pit_head <= G_SLOT && G_SLOT < *pit_tail && pit_buf[G_SLOT].m_idx == G))",
+        TRACK_OPEN="(G_IN_OPEN ==> (closed_[G] && G_SLOT_O < *open_n && open_buf[G_SLOT_O].m_idx == G))",
+        TRACK_PIT="(G_IN_PIT ==> (closed_[G] && *pit_head <= G_SLOT_P && G_SLOT_P < *pit_tail && pit_buf[G_SLOT_P].m_idx == G))",
         DONE="(G_PROCESSED ==> %s)" % all_closed,
         MASKED_OPEN="(MASKED(G) ==> !closed_[G])" if False else "1",
     )
@@ -98,19 +98,19 @@ STEP_RULES = [
     # IH instances at the popped slot and at the slot moved by the pop (DESIGN 3.9): invariant QELEM at a data-dependent index
     V(r"inode = open\.top\(\);\s*open\.pop\(\);",
       "FSL_PRE(QELEM_OK(open_buf[open_t])); FSL_PRE(QELEM_OK(open_buf[*open_n - 1])); inode = open_buf[open_t]; "
-      "FSL_GHOST(if (G_IN_OPEN && G_SLOT == open_t) { G_IN_OPEN = 0; } else if (G_IN_OPEN && G_SLOT == *open_n - 1) { G_SLOT = open_t; }) "
+      "FSL_GHOST(if (G_IN_OPEN && G_SLOT_O == open_t) { G_IN_OPEN = 0; } else if (G_IN_OPEN && G_SLOT_O == *open_n - 1) { G_SLOT_O = open_t; }) "
       "open_buf[open_t] = open_buf[*open_n - 1]; *open_n = *open_n - 1;"),
     V(r"inode = pit\.front\(\);\s*pit\.pop\(\);",
       "FSL_PRE(QELEM_OK(pit_buf[*pit_head])); inode = pit_buf[*pit_head]; "
-      "FSL_GHOST(if (G_IN_PIT && G_SLOT == *pit_head) { G_IN_PIT = 0; }) *pit_head = *pit_head + 1;"),
+      "FSL_GHOST(if (G_IN_PIT && G_SLOT_P == *pit_head) { G_IN_PIT = 0; }) *pit_head = *pit_head + 1;"),
     R(r"for \(auto n_idx : grid\.neighbors_indices\(inode\.m_idx, neighbors_indices\)\)\s*\{",
       "neighbors_n = grid_neighbors_indices(inode.m_idx, neighbors_indices);\nfor (size_t nb_k = 0; nb_k < neighbors_n; ++nb_k)\n{ size_t n_idx = neighbors_indices[nb_k]; "
       "FSL_PRE(!isnan(FSL_FLAT(elevation, n_idx))); /* finite elevation field (property domain): NaN-freeness of every cell, instance at the cell read */", 1),
     V(r"knode = pflood_node<FG, elev_t>\(n_idx, elevation\.flat\(n_idx\)\);", "knode.m_idx = n_idx; knode.m_elevation = FSL_FLAT(elevation, n_idx);"),
     V(r"pit\.emplace\(knode\);",
-      "FSL_PRE(*pit_tail < QCAP); /* model capacity */ FSL_GHOST(if (knode.m_idx == G) { G_IN_PIT = 1; G_SLOT = *pit_tail; }) pit_buf[*pit_tail] = knode; *pit_tail = *pit_tail + 1;"),
+      "FSL_PRE(*pit_tail < QCAP); /* model capacity */ FSL_GHOST(if (knode.m_idx == G) { G_IN_PIT = 1; G_SLOT_P = *pit_tail; }) pit_buf[*pit_tail] = knode; *pit_tail = *pit_tail + 1;"),
     V(r"open\.emplace\(knode\);",
-      "FSL_PRE(*open_n < QCAP); /* model capacity */ FSL_GHOST(if (knode.m_idx == G) { G_IN_OPEN = 1; G_SLOT = *open_n; }) open_buf[*open_n] = knode; *open_n = *open_n + 1;"),
+      "FSL_PRE(*open_n < QCAP); /* model capacity */ FSL_GHOST(if (knode.m_idx == G) { G_IN_OPEN = 1; G_SLOT_O = *open_n; }) open_buf[*open_n] = knode; *open_n = *open_n + 1;"),
 ] + GRAPH_VOCAB
 
 STEP_LOCALS = "size_t neighbors_indices[FSL_NBMAX]; size_t neighbors_n; /* scratch of the enclosing function */\n"
@@ -144,10 +144,16 @@ def common_pre(nb):
             + MODEL + neighbors_sym_contract(nb) + "#endif\n")
 
 
-def make_step(nb):
+PARTS = {"queue": ["QELEM_OPEN", "QELEM_PIT"], "parent": ["PARENT"], "track": ["TRACK", "TRACK_OPEN", "TRACK_PIT", "DONE"]}
+
+
+def make_step(nb, part=None):
+    """part=None: the full contract (used when the step is replaced in the whole-function group); otherwise only the named
+    subset of the invariant is proved as postcondition (lemma split; the precondition is always the full invariant)"""
     I = inv(nb)
     pre_inv = "".join("__CPROVER_requires(%s)\n" % v for v in I.values())
-    post_inv = "".join("__CPROVER_ensures(%s)\n" % v for v in I.values())
+    post_inv = "".join("__CPROVER_ensures(%s)\n" % v for k, v in I.items() if part is None or k in PARTS[part])
+    c02 = part in (None, "queue")
     return Unit(
         name="pflood_step", file=PFLOOD_H,
         anchor=r"void fill_sinks_sloped\(FG& graph_impl, E&& elevation\)",
@@ -158,16 +164,15 @@ def make_step(nb):
         contract=FRESH + ghost_requires(nb) + pre_inv + r"""
 __CPROVER_requires(!OPEN_EMPTY() || !PIT_EMPTY())   /* the loop guard */
 __CPROVER_assigns(__CPROVER_object_whole(elevation), __CPROVER_object_whole(closed_), __CPROVER_object_whole(open_buf), *open_n,
-                  __CPROVER_object_whole(pit_buf), *pit_head, *pit_tail, G_PROCESSED, G_IN_OPEN, G_IN_PIT, G_SLOT)
-""" + post_inv + r"""
+                  __CPROVER_object_whole(pit_buf), *pit_head, *pit_tail, G_PROCESSED, G_IN_OPEN, G_IN_PIT, G_SLOT_O, G_SLOT_P)
+""" + post_inv + (r"""
 /* C02: never below the previous value; closed or masked cells are never written; a written cell becomes closed */
 __CPROVER_ensures(elevation[G] >= __CPROVER_old(elevation[G]) || SAME_D(elevation[G], __CPROVER_old(elevation[G])))
 __CPROVER_ensures((__CPROVER_old(closed_[G]) || MASKED(G)) ==> SAME_D(elevation[G], __CPROVER_old(elevation[G])))
 __CPROVER_ensures(__CPROVER_old(closed_[G]) ==> closed_[G])
 __CPROVER_ensures(MASKED(G) ==> closed_[G] == __CPROVER_old(closed_[G]))
-/* progress: one element leaves the queues, at most n_neighbors_max enter */
-__CPROVER_ensures(*open_n + (*pit_tail - *pit_head) + 1 <= __CPROVER_old(*open_n) + (__CPROVER_old(*pit_tail) - __CPROVER_old(*pit_head)) + FSL_NBMAX)
-""",
+__CPROVER_ensures(*open_n <= QCAP && *pit_head <= *pit_tail && *pit_tail <= QCAP)
+""" if c02 else ""),
     )
 
 
@@ -182,7 +187,7 @@ void h_%(fn)s(void)
     const _Bool *m_mask, *base_level; const uint8_t *nodes_status;
     _Bool m_mask_initialized = nondet_bool();
     GSIZE = gsize; QCAP = nondet_size_t(); G = nondet_size_t(); GN_cnt = nondet_size_t(); QS = nondet_size_t(); PS = nondet_size_t();
-    G_PROCESSED = nondet_bool(); G_IN_OPEN = nondet_bool(); G_IN_PIT = nondet_bool(); G_SLOT = nondet_size_t();
+    G_PROCESSED = nondet_bool(); G_IN_OPEN = nondet_bool(); G_IN_PIT = nondet_bool(); G_SLOT_O = nondet_size_t(); G_SLOT_P = nondet_size_t();
 %(init)s
     %(fn)s(%(lead)s%(args)s);
     __CPROVER_assert(0, "canary: postcondition point reachable");
@@ -194,17 +199,28 @@ def defines(nb):
     return ["FSL_NBMAX=%d" % nb]
 
 
+ALL_CHECKS = ["--bounds-check", "--pointer-check", "--div-by-zero-check", "--signed-overflow-check",
+              "--pointer-overflow-check", "--conversion-check", "--undefined-shift-check"]
+CLAUSES = {
+    "queue": "queue elements are closed unmasked nodes carrying their current elevation; elevations never decrease, closed/masked cells are never "
+             "written, `closed` only grows (C02); all memory-safety checks of the step",
+    "parent": "every closed, unmasked, non-base node has a closed unmasked strictly lower neighbour (C01 parent-lower)",
+    "track": "a closed node is processed or still queued (with its slot tracked through pops/moves); a processed node has no open unmasked "
+             "neighbour (flood completeness premises)",
+}
+
+
 def groups(nb, tier="quick"):
-    step = make_step(nb)
-    g1 = Group(
-        name="pflood.step.nb%d" % nb, units=[is_masked, is_base_level, step], harness=harness("pflood_step", nb),
-        entry="h_pflood_step", enforce="pflood_step", replace=["grid_neighbors_indices", "fsl_nextafter_up"],
-        unwindset={("pflood_step", 0): nb + 1}, defines=defines(nb), backend="sat", timeout=1200, min_obligations=50, tier=tier,
-        clause="one iteration of the flood (pop + neighbour scan) preserves, for an arbitrary node and arbitrary queue slots: queue elements "
-               "are closed unmasked nodes carrying their current elevation; every closed non-base node has a closed unmasked strictly lower "
-               "neighbour (C01); a processed node has no open unmasked neighbour and a closed node is processed or queued (flood completeness "
-               "premises); elevations never decrease, closed/masked cells are never written (C02); <= %d neighbours" % nb)
-    return [g1]
+    gs = []
+    for part in PARTS:
+        gs.append(Group(
+            name="pflood.step.%s.nb%d" % (part, nb), units=[is_masked, is_base_level, make_step(nb, part)], harness=harness("pflood_step", nb),
+            entry="h_pflood_step", enforce="pflood_step", replace=["grid_neighbors_indices", "fsl_nextafter_up"],
+            unwindset={("pflood_step", 0): nb + 1}, defines=defines(nb), backend="sat", timeout=1500, min_obligations=50, tier=tier,
+            no_checks=[] if part == "queue" else ALL_CHECKS,
+            clause="one iteration of the flood (pop + neighbour scan), for an arbitrary node and arbitrary queue slots: " + CLAUSES[part] +
+                   "; <= %d neighbours" % nb))
+    return gs
 
 
 GROUPS = {"C01": groups(2), "C02": groups(2)}
@@ -249,9 +265,10 @@ def make_init(nb):
                R(r"const auto elevation_flat = xt::flatten\(elevation\);", "/* elevation_flat: flat view of the same buffer */", 1),
                R(r"for \(size_type idx : graph_impl\.base_levels\(\)\)\s*\{",
                  "for (size_t bl_k = 0; bl_k < base_n; ++bl_k)\n{ size_t idx = base_list[bl_k]; "
-                 "FSL_PRE(idx < gsize && base_level[idx]); /* members of the set (container model) */ ", 1),
+                 "FSL_PRE(idx < gsize && base_level[idx]); /* members of the set (container model) */ "
+                 "FSL_PRE(!isnan(FSL_FLAT(elevation, idx))); /* finite elevation field (property domain), instance at the cell read */ ", 1),
                V(r"open\.emplace\(pflood_node<FG, elev_t>\(idx, elevation_flat\(idx\)\)\);",
-                 "FSL_PRE(*open_n < QCAP); /* model capacity */ FSL_GHOST(if (idx == G) { G_IN_OPEN = 1; G_SLOT = *open_n; }) "
+                 "FSL_PRE(*open_n < QCAP); /* model capacity */ FSL_GHOST(if (idx == G) { G_IN_OPEN = 1; G_SLOT_O = *open_n; }) "
                  "open_buf[*open_n].m_idx = idx; open_buf[*open_n].m_elevation = FSL_FLAT(elevation, idx); *open_n = *open_n + 1;"),
                ] + GRAPH_VOCAB,
         contract=FRESH + ghost_requires(nb) + r"""
@@ -259,7 +276,7 @@ __CPROVER_requires(base_n <= gsize && __CPROVER_is_fresh(base_list, gsize * 8))
 /* entry state established by fill_sinks_sloped: empty queues, nothing closed (instances at the ghost cells), ghost tracking reset */
 __CPROVER_requires(*open_n == 0 && *pit_head == 0 && *pit_tail == 0 && !closed_[G] && %(NBOPEN)s)
 __CPROVER_requires(!G_PROCESSED && !G_IN_OPEN && !G_IN_PIT)
-__CPROVER_assigns(__CPROVER_object_whole(closed_), __CPROVER_object_whole(open_buf), *open_n, G_IN_OPEN, G_SLOT)
+__CPROVER_assigns(__CPROVER_object_whole(closed_), __CPROVER_object_whole(open_buf), *open_n, G_IN_OPEN, G_SLOT_O)
 %(POST)s
 /* only base levels get closed; elevation is not touched */
 __CPROVER_ensures(closed_[G] ==> (base_level[G] && !MASKED(G)))
@@ -267,8 +284,8 @@ __CPROVER_ensures(*pit_head == 0 && *pit_tail == 0)
 """ % dict(NBOPEN=conj("%k < GN_cnt ==> !closed_[GN[%k].idx]", nb),
            POST="".join("__CPROVER_ensures(%s)\n" % v for v in I.values())),
         loops={0: r"""
-__CPROVER_assigns(bl_k, __CPROVER_object_whole(closed_), __CPROVER_object_whole(open_buf), *open_n, G_IN_OPEN, G_SLOT)
-__CPROVER_loop_invariant(bl_k <= base_n && *open_n <= bl_k && *pit_head == 0 && *pit_tail == 0 && !G_PROCESSED && !G_IN_PIT)
+__CPROVER_assigns(bl_k, __CPROVER_object_whole(closed_), __CPROVER_object_whole(open_buf), *open_n, G_IN_OPEN, G_SLOT_O)
+__CPROVER_loop_invariant(bl_k <= base_n && *open_n <= bl_k && *open_n <= QCAP && *pit_head == 0 && *pit_tail == 0 && !G_PROCESSED && !G_IN_PIT)
 __CPROVER_loop_invariant(closed_[G] ==> (base_level[G] && !MASKED(G)))
 __CPROVER_loop_invariant(%(NBC)s)
 %(INV)s
@@ -316,7 +333,7 @@ __CPROVER_requires(base_n <= gsize && __CPROVER_is_fresh(base_list, gsize * 8))
 __CPROVER_requires(ELEV_IN_G == elevation[G] && !isnan(elevation[G]))
 /* scratch state of the containers is arbitrary on entry (C09: the result cannot depend on it) */
 __CPROVER_assigns(__CPROVER_object_whole(elevation), __CPROVER_object_whole(closed_), __CPROVER_object_whole(open_buf), *open_n,
-                  __CPROVER_object_whole(pit_buf), *pit_head, *pit_tail, G_PROCESSED, G_IN_OPEN, G_IN_PIT, G_SLOT)
+                  __CPROVER_object_whole(pit_buf), *pit_head, *pit_tail, G_PROCESSED, G_IN_OPEN, G_IN_PIT, G_SLOT_O, G_SLOT_P)
 /* C01: every node the flood reached (closed) that is not a base level has a closed, unmasked, strictly lower neighbour */
 __CPROVER_ensures(%(PARENT)s)
 /* flood completeness premise at exit: a reached node has no unreached unmasked neighbour */
@@ -327,7 +344,7 @@ __CPROVER_ensures((MASKED(G) || base_level[G]) ==> elevation[G] == ELEV_IN_G)
 """ % dict(PARENT=I["PARENT"], ALLC=conj("%k < GN_cnt ==> (MASKED(GN[%k].idx) || closed_[GN[%k].idx])", nb)),
         loops={0: r"""
 __CPROVER_assigns(__CPROVER_object_whole(elevation), __CPROVER_object_whole(closed_), __CPROVER_object_whole(open_buf), *open_n,
-                  __CPROVER_object_whole(pit_buf), *pit_head, *pit_tail, G_PROCESSED, G_IN_OPEN, G_IN_PIT, G_SLOT)
+                  __CPROVER_object_whole(pit_buf), *pit_head, *pit_tail, G_PROCESSED, G_IN_OPEN, G_IN_PIT, G_SLOT_O, G_SLOT_P)
 __CPROVER_loop_invariant(*open_n <= QCAP && *pit_head <= *pit_tail && *pit_tail <= QCAP)
 %(INV)s
 __CPROVER_loop_invariant(elevation[G] >= ELEV_IN_G)
@@ -362,3 +379,112 @@ _MORE = more_groups(2)
 GROUPS["C01"] = GROUPS["C01"] + _MORE
 GROUPS["C02"] = GROUPS["C02"] + _MORE
 GROUPS["C09"] = [_MORE[1]]
+
+
+# ---------------------------------------------------------------------------------------------------------- composition pieces
+# The monolithic DFCC proof of fill_sinks_sloped (step and init replaced by their contracts, loop contract on the while) does
+# not finish within 15 min here; it stays in the thorough tier.  The quick tier decides the same composition in pieces:
+#   {inv} pflood_step {inv}            groups pflood.step.*   (precondition = loop guard + invariant)
+#   {entry} pflood_init {inv}          group  pflood.init
+#   prologue establishes {entry}       group  pflood.prologue (typestate abstraction of the whole-container facts)
+#   inv && !guard  ==>  postcondition  group  pflood.exit     (loop-free implication over the ghost cells)
+# and the while rule of Hoare logic puts them together (unmechanised, stated in the evidence).
+def exit_harness(nb):
+    I = inv(nb)
+    init = "".join("    GN[%d].idx = nondet_size_t();\n" % k for k in range(nb))
+    allc = conj("%k < GN_cnt ==> (MASKED(GN[%k].idx) || closed_[GN[%k].idx])", nb)
+    return common_pre(nb) + r"""
+_Bool nondet_bool(void);
+#define NMAXC 4
+void h_pflood_exit(void)
+{
+    /* the ghost cells the invariant talks about: node G, its neighbours, the queue bookkeeping -- all arbitrary */
+    size_t gsize = nondet_size_t(); GSIZE = gsize;
+    __CPROVER_assume(gsize > 0 && gsize <= ((size_t) 1 << 40));
+    _Bool *closed_ = malloc(gsize), *m_mask = malloc(gsize), *base_level = malloc(gsize); double *elevation = malloc(gsize * 8);
+    __CPROVER_assume(closed_ && m_mask && base_level && elevation);
+    _Bool m_mask_initialized = nondet_bool();
+    struct pnode *open_buf = malloc(16 * 4), *pit_buf = malloc(16 * 4);
+    __CPROVER_assume(open_buf && pit_buf);
+    size_t on = nondet_size_t(), ph = nondet_size_t(), pt = nondet_size_t(); size_t *open_n = &on, *pit_head = &ph, *pit_tail = &pt;
+    G = nondet_size_t(); GN_cnt = nondet_size_t(); QS = nondet_size_t(); PS = nondet_size_t();
+    G_PROCESSED = nondet_bool(); G_IN_OPEN = nondet_bool(); G_IN_PIT = nondet_bool(); G_SLOT_O = nondet_size_t(); G_SLOT_P = nondet_size_t();
+%(init)s
+    __CPROVER_assume(G < gsize && GN_cnt <= FSL_NBMAX && %(GNOK)s);
+    /* loop exit: both queues empty, invariant holds */
+    __CPROVER_assume(OPEN_EMPTY() && PIT_EMPTY() && *pit_head <= 4 && *pit_tail <= 4);
+    __CPROVER_assume(%(PARENT)s);
+    __CPROVER_assume(%(TRACK)s);
+    __CPROVER_assume(%(TRACK_OPEN)s);
+    __CPROVER_assume(%(TRACK_PIT)s);
+    __CPROVER_assume(%(DONE)s);
+    __CPROVER_assert((closed_[G] && !MASKED(G)) ==> G_PROCESSED, "at exit every reached node has been processed");
+    __CPROVER_assert((closed_[G] && !MASKED(G)) ==> %(ALLC)s, "C01 flood completeness premise: a reached node has no unreached unmasked neighbour");
+    __CPROVER_assert(%(PARENT)s, "C01 parent-lower holds at exit");
+    __CPROVER_assert(0, "canary: postcondition point reachable");
+}
+""" % dict(init=init, GNOK=conj("%k < GN_cnt ==> GN[%k].idx < gsize", nb), ALLC=allc, **I)
+
+
+PROLOGUE_MODEL = r"""
+/* typestate abstraction: the containers' whole-content facts that init_pflood's contract requires */
+int Q_OPEN_EMPTY, Q_PIT_EMPTY, CLOSED_ZERO, INIT_DONE, STEPS;
+static void init_model(void)
+{
+    __CPROVER_assert(Q_OPEN_EMPTY && Q_PIT_EMPTY, "C09 both queues are freshly constructed (empty) in every call before the flood is seeded");
+    __CPROVER_assert(CLOSED_ZERO, "C09 `closed` is zero-initialised in every call before the flood is seeded");
+    INIT_DONE++;
+}
+int nondet_int(void);
+static int GUARD_CALLS;
+static int guard_model(void) { if (GUARD_CALLS >= 2) return 0; GUARD_CALLS++; return nondet_int(); }   /* !open.empty() || !pit.empty(): data-dependent; two iterations suffice for the ordering facts */
+static void step_model(void) { __CPROVER_assert(INIT_DONE == 1, "the flood loop runs after init_pflood"); STEPS = 1; }
+"""
+
+pflood_prologue = Unit(
+    name="pflood_fill_ts", file=PFLOOD_H,
+    anchor=r"void fill_sinks_sloped\(FG& graph_impl, E&& elevation\)",
+    sig="void pflood_fill_ts(void)",
+    pre=PROLOGUE_MODEL,
+    rules=[R(r"using neighbors_indices_type = [^;]*;\s*using elev_t = [^;]*;", "", 1),
+           R(r"neighbors_indices_type neighbors_indices;", "", 1),
+           R(r"pflood_pr_queue<FG, elev_t> open;", "Q_OPEN_EMPTY = 1; /* default-constructed priority_queue */", 1),
+           R(r"pflood_queue<FG, elev_t> pit;", "Q_PIT_EMPTY = 1; /* default-constructed queue */", 1),
+           R(r"xt::xtensor<bool, 1> closed = xt::zeros<bool>\(\{ graph_impl\.size\(\) \}\);", "CLOSED_ZERO = 1;", 1),
+           R(r"auto& grid = graph_impl\.grid\(\);", "", 1),
+           V(r"init_pflood\(graph_impl, elevation, closed, open\);", "init_model();"),
+           R(r"while \(!open\.empty\(\) \|\| !pit\.empty\(\)\)", "while (guard_model())", 1),
+           RB(r"while \(guard_model\(\)\)", "{ step_model(); }")],
+)
+
+H_PROLOGUE = r"""
+void h_pflood_prologue(void)
+{
+    /* nothing is known about earlier calls: the containers are locals of the function, so there is no state to inherit */
+    Q_OPEN_EMPTY = 0; Q_PIT_EMPTY = 0; CLOSED_ZERO = 0; INIT_DONE = 0; STEPS = 0;
+    pflood_fill_ts();
+    __CPROVER_assert(INIT_DONE == 1, "init_pflood runs exactly once per call");
+    __CPROVER_assert(0, "canary: postcondition point reachable");
+}
+"""
+
+_COMP = [
+    Group(name="pflood.exit.nb2", units=[], harness="#include <stdlib.h>\n" + exit_harness(2), entry="h_pflood_exit", defines=defines(2),
+          timeout=300, min_obligations=3,
+          clause="flood invariant and both queues empty  ==>  every reached node is processed and has no unreached unmasked neighbour; "
+                 "parent-lower at exit (loop-free implication over the ghost cells)"),
+    Group(name="pflood.prologue", units=[pflood_prologue], harness=H_PROLOGUE, entry="h_pflood_prologue", unwind=3, timeout=120,
+          min_obligations=4,
+          clause="fill_sinks_sloped prologue (typestate abstraction): queues and `closed` are fresh locals of every call, init_pflood runs once "
+                 "before the loop, the loop is `while (queues not empty) step` (C09: no state survives a call)"),
+]
+for _g in _MORE:
+    if _g.name.startswith("pflood.fill"):
+        _g.tier = "thorough"
+        _g.timeout = 3600
+GROUPS["C01"] = GROUPS["C01"] + _COMP
+GROUPS["C02"] = GROUPS["C02"] + _COMP
+GROUPS["C09"] = GROUPS["C09"] + [_COMP[1]]
+PROPS["C01"]["unmechanised"].append(
+    "while rule: {inv && guard} step {inv}, {entry} init {inv}, prologue => entry, inv && !guard => post  ==>  the postcondition of "
+    "fill_sinks_sloped (each premise is a discharged group; the monolithic DFCC proof is in the thorough tier)")
